@@ -1418,4 +1418,269 @@ theorem pickle_roundtrip_fresh (hF : FoaSpec)
   exact ⟨h1, fun α => by rw [h2 α, dumpPickle_eval hIs hvs hd α u hu]⟩
 
 
+/-! ### whole-manager pickle -/
+
+theorem opt_ext {α : Type} {a b : Option α} (h : ∀ x, a = some x ↔ b = some x) : a = b := by
+  cases a with
+  | none =>
+    cases b with
+    | none => rfl
+    | some y => exact absurd ((h y).mpr rfl) (by simp)
+  | some x => exact ((h x).mp rfl).symm
+
+/-- `dict(items)` of the items of a map is that map -/
+theorem ofList_toList_getElem? {α β : Type} [Ord α] [TransOrd α] [LawfulEqOrd α] [BEq α] [LawfulBEqOrd α]
+    (t : TreeMap α β) (k : α) : (TreeMap.ofList t.toList)[k]? = t[k]? := by
+  cases h : t[k]? with
+  | some v =>
+    have hm : (k, v) ∈ t.toList := TreeMap.mem_toList_iff_getElem?_eq_some.mpr h
+    exact TreeMap.getElem?_ofList_of_mem (k := k) compare_self TreeMap.distinct_keys_toList hm
+  | none =>
+    apply TreeMap.getElem?_ofList_of_contains_eq_false
+    rw [Bool.eq_false_iff]
+    intro hc
+    rw [List.contains_iff_mem, List.mem_map] at hc
+    obtain ⟨⟨k', v⟩, hkv, hk⟩ := hc
+    simp at hk
+    subst hk
+    rw [TreeMap.mem_toList_iff_getElem?_eq_some] at hkv
+    rw [h] at hkv
+    cases hkv
+
+
+theorem addVar_new (m : Mgr) (v : String) (l : Nat) (h1 : m.tbl.vars[v]? = none)
+    (h2 : m.tbl.l2v[l]? = none) :
+    addVar v (some (l : Int)) m = (.ok l, { m with tbl := { m.tbl with
+      vars := m.tbl.vars.insert v l, l2v := m.tbl.l2v.insert l v } }) := by
+  have hneg : ¬ ((l : Int) < 0) := by omega
+  simp [addVar, bind, M.bind', M.get, h1, h2, hneg, M.set, pure, M.pure']
+
+/-- fields other than the variable tables -/
+structure SameRest (m m' : Mgr) : Prop where
+  succ : m'.tbl.succ = m.tbl.succ
+  pred : m'.pred = m.pred
+  ref : m'.ref = m.ref
+  minFree : m'.minFree = m.minFree
+  cache : m'.cache = m.cache
+  lastLen : m'.lastLen = m.lastLen
+  ctx : m'.ctx = m.ctx
+  roots : m'.roots = m.roots
+
+theorem addVars_spec : ∀ (vs : List (String × Nat)) (m0 : Mgr),
+    vs.Pairwise (fun a b => a.1 ≠ b.1 ∧ a.2 ≠ b.2) →
+    (∀ v l, (v, l) ∈ vs → m0.tbl.vars[v]? = none ∧ m0.tbl.l2v[l]? = none) →
+    ∃ m1, addVars vs m0 = (.ok (), m1) ∧
+      (∀ (v : String) (l : Nat), m1.tbl.vars[v]? = some l ↔ (m0.tbl.vars[v]? = some l ∨ (v, l) ∈ vs)) ∧
+      (∀ (l : Nat) (v : String), m1.tbl.l2v[l]? = some v ↔ (m0.tbl.l2v[l]? = some v ∨ (v, l) ∈ vs)) ∧
+      SameRest m0 m1 := by
+  intro vs
+  induction vs with
+  | nil =>
+    intro m0 _ _
+    exact ⟨m0, rfl, by simp, by simp, ⟨rfl, rfl, rfl, rfl, rfl, rfl, rfl, rfl⟩⟩
+  | cons x rest ih =>
+    intro m0 hp hfree
+    obtain ⟨v, l⟩ := x
+    obtain ⟨f1, f2⟩ := hfree v l List.mem_cons_self
+    rw [List.pairwise_cons] at hp
+    obtain ⟨hx, hp'⟩ := hp
+    rw [addVars]
+    dsimp only
+    rw [addVar_new m0 v l f1 f2]
+    dsimp only
+    have hfree' : ∀ v' l', (v', l') ∈ rest →
+        (m0.tbl.vars.insert v l)[v']? = none ∧ (m0.tbl.l2v.insert l v)[l']? = none := by
+      intro v' l' hm
+      obtain ⟨g1, g2⟩ := hfree v' l' (List.mem_cons_of_mem _ hm)
+      obtain ⟨d1, d2⟩ := hx (v', l') hm
+      rw [TreeMap.getElem?_insert, TreeMap.getElem?_insert]
+      have c1 : compare v v' ≠ .eq := fun h => d1 (compare_eq_iff_eq.mp h)
+      have c2 : compare l l' ≠ .eq := fun h => d2 (compare_eq_iff_eq.mp h)
+      simp [c1, c2, g1, g2]
+    obtain ⟨m1, e1, V1, L1, S1⟩ := ih ({ m0 with tbl := { m0.tbl with
+      vars := m0.tbl.vars.insert v l, l2v := m0.tbl.l2v.insert l v } }) hp' hfree'
+    refine ⟨m1, e1, ?_, ?_, ⟨S1.succ, S1.pred, S1.ref, S1.minFree, S1.cache, S1.lastLen, S1.ctx, S1.roots⟩⟩
+    · intro v' l'
+      rw [V1]
+      show (m0.tbl.vars.insert v l)[v']? = some l' ∨ _ ↔ _
+      rw [TreeMap.getElem?_insert]
+      by_cases hv : v = v'
+      · subst hv
+        simp [f1]
+        constructor
+        · rintro (h | h)
+          · exact Or.inl h.symm
+          · exact Or.inr h
+        · rintro (h | h)
+          · exact Or.inl h.symm
+          · exact Or.inr h
+      · have c1 : compare v v' ≠ .eq := fun h => hv (compare_eq_iff_eq.mp h)
+        have : ¬ (v' = v) := fun h => hv h.symm
+        simp [c1, this]
+    · intro l' v'
+      rw [L1]
+      show (m0.tbl.l2v.insert l v)[l']? = some v' ∨ _ ↔ _
+      rw [TreeMap.getElem?_insert]
+      by_cases hl : l = l'
+      · subst hl
+        simp [f2]
+        constructor
+        · rintro (h | h)
+          · exact Or.inl h.symm
+          · exact Or.inr h
+        · rintro (h | h)
+          · exact Or.inl h.symm
+          · exact Or.inr h
+      · have c1 : compare l l' ≠ .eq := fun h => hl (compare_eq_iff_eq.mp h)
+        have : ¬ (l' = l) := fun h => hl h.symm
+        simp [c1, this]
+
+
+theorem toList_pairwise (t : Tbl) (hb : VarsBij t) :
+    t.vars.toList.Pairwise (fun a b => a.1 ≠ b.1 ∧ a.2 ≠ b.2) := by
+  apply List.Pairwise.imp_of_mem _ (TreeMap.distinct_keys_toList (t := t.vars))
+  intro a b ha hb' hne
+  have h1 : a.1 ≠ b.1 := fun h => hne (by rw [h]; exact compare_self)
+  refine ⟨h1, ?_⟩
+  intro h2
+  obtain ⟨a1, a2⟩ := a
+  obtain ⟨b1, b2⟩ := b
+  rw [TreeMap.mem_toList_iff_getElem?_eq_some] at ha hb'
+  simp at h2
+  subst h2
+  have x := (hb a1 a2).mp ha
+  have y := (hb b1 a2).mp hb'
+  rw [x] at y
+  cases y
+  exact h1 rfl
+
+theorem validOrdering_toList (t : Tbl) (hv : VarsOK t) : validOrdering t.vars.toList = true := by
+  unfold validOrdering
+  simp only [Bool.and_eq_true, List.all_eq_true, decide_eq_true_eq]
+  rw [length_vars_toList]
+  constructor
+  · intro i hi
+    rw [List.mem_range] at hi
+    obtain ⟨x, hx⟩ := Option.isSome_iff_exists.mp (hv.named i hi)
+    have := (hv.bij x i).mpr hx
+    rw [List.contains_iff_mem, List.mem_map]
+    exact ⟨(x, i), TreeMap.mem_toList_iff_getElem?_eq_some.mpr this, rfl⟩
+  · intro k hk
+    rw [List.mem_map] at hk
+    obtain ⟨⟨v, l⟩, hm, rfl⟩ := hk
+    exact hv.contig v l (TreeMap.mem_toList_iff_getElem?_eq_some.mp hm)
+
+/-- the constructor called on the variable table of a manager rebuilds both views -/
+theorem mkBDD_toList (t : Tbl) (hv : VarsOK t) :
+    ∃ m0, mkBDD t.vars.toList = .ok m0 ∧ (∀ v : String, m0.tbl.vars[v]? = t.vars[v]?) ∧
+      (∀ l : Nat, m0.tbl.l2v[l]? = t.l2v[l]?) ∧ SameRest {} m0 := by
+  obtain ⟨m1, e1, V1, L1, S1⟩ := addVars_spec t.vars.toList {} (toList_pairwise t hv.bij)
+    (by intro v l _; exact ⟨by simp, by simp⟩)
+  refine ⟨m1, ?_, ?_, ?_, S1⟩
+  · unfold mkBDD
+    rw [validOrdering_toList t hv, e1]
+    rfl
+  · intro v
+    apply opt_ext
+    intro l
+    rw [V1, TreeMap.mem_toList_iff_getElem?_eq_some]
+    simp
+  · intro l
+    apply opt_ext
+    intro v
+    rw [L1, TreeMap.mem_toList_iff_getElem?_eq_some, hv.bij]
+    simp
+
+
+/-- every key of the unique table is the key of a node triple -/
+def PredShape (m : Mgr) : Prop := ∀ (k : List Int) (u : Nat), m.pred[k]? = some u → ∃ n : Nd, k = n.key
+
+/-- `m'` reproduces the stored fields of `m`; the others are those of a new manager -/
+structure MgrStored (m m' : Mgr) : Prop where
+  vars : ∀ v : String, m'.tbl.vars[v]? = m.tbl.vars[v]?
+  l2v : ∀ l : Nat, m'.tbl.l2v[l]? = m.tbl.l2v[l]?
+  succ : ∀ u : Nat, m'.tbl.succ[u]? = m.tbl.succ[u]?
+  pred : ∀ k : List Int, m'.pred[k]? = m.pred[k]?
+  ref : ∀ u : Nat, m'.ref[u]? = m.ref[u]?
+  minFree : m'.minFree = m.minFree
+  roots : m'.roots = m.roots
+  cache : ∀ k : List Int, m'.cache[k]? = none
+  lastLen : m'.lastLen = none
+  ctx : m'.ctx = false
+
+theorem nd?_nodeEntry (x : Nat × Nd) : (nodeEntry x).nd? = some x := by
+  obtain ⟨u, n⟩ := x
+  rfl
+
+theorem filterMap_nd?_nodes (l : List (Nat × Nd)) : (l.map nodeEntry).filterMap PEntry.nd? = l := by
+  induction l with
+  | nil => rfl
+  | cons x xs ih => simp [List.filterMap_cons, nd?_nodeEntry, ih]
+
+theorem filter_none_nodes (l : List (Nat × Nd)) :
+    (l.map nodeEntry).filter (fun e => e.nd?.isNone) = [] := by
+  rw [List.filter_eq_nil_iff]
+  intro e he
+  rw [List.mem_map] at he
+  obtain ⟨x, _, rfl⟩ := he
+  simp [nd?_nodeEntry]
+
+theorem predEntry_key (n : Nd) (u : Nat) :
+    predEntry (n.key, u) = some ⟨u, n.lvl, some n.lo, some n.hi⟩ := by
+  simp [predEntry, Nd.key]
+
+theorem pred_roundtrip (l : List (List Int × Nat)) (h : ∀ x ∈ l, ∃ n : Nd, x.1 = n.key) :
+    ((l.filterMap predEntry).filterMap PEntry.nd?).map (fun (x : Nat × Nd) => (x.2.key, x.1)) = l ∧
+    (l.filterMap predEntry).filter (fun e => e.nd?.isNone) = [] := by
+  induction l with
+  | nil => exact ⟨rfl, rfl⟩
+  | cons x xs ih =>
+    obtain ⟨k, u⟩ := x
+    obtain ⟨n, hn⟩ := h (k, u) List.mem_cons_self
+    simp at hn
+    subst hn
+    obtain ⟨a, b⟩ := ih (fun y hy => h y (List.mem_cons_of_mem _ hy))
+    constructor
+    · rw [List.filterMap_cons, predEntry_key]
+      simp only [List.filterMap_cons, PEntry.nd?, List.map_cons]
+      rw [a]
+    · rw [List.filterMap_cons, predEntry_key]
+      have : (⟨u, n.lvl, some n.lo, some n.hi⟩ : PEntry).nd?.isNone = false := rfl
+      simp only [List.filter_cons, this]
+      exact b
+
+/-- C12: a whole-manager pickle reproduces the manager (`loadManager (dumpManager m)` equals
+`m` on every stored field; the computed table is empty and reordering is off, as in
+any new manager) -/
+theorem manager_roundtrip (m : Mgr) (hv : VarsOK m.tbl) (hp : PredShape m) :
+    ∃ m', loadManager (dumpManager m) = .ok m' ∧ MgrStored m m' := by
+  obtain ⟨m0, e0, V0, L0, S0⟩ := mkBDD_toList m.tbl hv
+  have hpl : ∀ x ∈ m.pred.toList, ∃ n : Nd, x.1 = n.key := by
+    intro x hx
+    obtain ⟨k, u⟩ := x
+    exact hp k u (TreeMap.mem_toList_iff_getElem?_eq_some.mp hx)
+  obtain ⟨pr1, pr2⟩ := pred_roundtrip m.pred.toList hpl
+  have hterm : (⟨1, m.nvars, none, none⟩ : PEntry).nd? = none := rfl
+  have hlen : (dumpManager m).vars.length = m.nvars := length_vars_toList _
+  refine ⟨{ m0 with
+      roots := m.roots
+      pred := TreeMap.ofList m.pred.toList
+      tbl := { m0.tbl with succ := TreeMap.ofList m.tbl.succ.toList }
+      ref := TreeMap.ofList m.ref.toList
+      minFree := m.minFree }, ?_, ?_⟩
+  · unfold loadManager
+    have e0' : mkBDD (dumpManager m).vars = .ok m0 := e0
+    rw [e0']
+    simp only [dumpManager, List.filter_cons, hterm, Option.isNone_none, if_true, filter_none_nodes,
+      pr2, List.filterMap_cons, filterMap_nd?_nodes, pr1, hlen]
+    simp [Mgr.nvars, Tbl.nvars]
+  · refine ⟨V0, L0, ?_, ?_, ?_, rfl, rfl, ?_, ?_, ?_⟩
+    · intro u; exact ofList_toList_getElem? _ _
+    · intro k; exact ofList_toList_getElem? _ _
+    · intro u; exact ofList_toList_getElem? _ _
+    · intro k; show m0.cache[k]? = none; rw [S0.cache]; simp
+    · show m0.lastLen = none; rw [S0.lastLen]
+    · show m0.ctx = false; rw [S0.ctx]
+
+
 end DD
